@@ -12,14 +12,18 @@
 (*     zeros  : keys of non-nullable fields that are set and hold the zero *)
 (*     extras : keys of AdditionalProperties                               *)
 (*     wrong  : keys whose field holds neither (must be empty)             *)
+(*     valid, toks : the accepted value marshalled again: is it JSON, and  *)
+(*              its members in order as the writer machine's tokens        *)
+(* Writer walk: the value the reader built is handed to the generated      *)
+(* MarshalJSON; the token stream must be exactly what the writer machine   *)
+(* of Codec.tla (WriteObj, repaired template) emits for that value.        *)
 (***************************************************************************)
-EXTENDS Reader, Json
+EXTENDS Reader, Codec, Json
 
 VARIABLES l, stats
 tvars == <<l, stats>>
 Trace == ndJsonDeserialize("trace.ndjson")
 Ev    == Trace[l]
-SeqToSet(s) == { s[i] : i \in DOMAIN s }
 
 Init == l = 1 /\ stats = [accepted |-> 0, nontrivial |-> 0, rejected |-> 0]
 Machine == ReadObj(Ev.obj, Ev.doc)
@@ -27,15 +31,30 @@ Agrees(r) == /\ Ev.ok = r.ok /\ Ev.wrong = << >>
              /\ r.ok => /\ SeqToSet(Ev.values) = r.set /\ SeqToSet(Ev.nulls) = r.nulls
                         /\ SeqToSet(Ev.zeros) = r.zeros /\ SeqToSet(Ev.extras) = r.extras
              /\ ~r.ok => r.err \in SeqToSet(Ev.named)          \* the error names the key the machine stops at
+\* the value the machine says was built, as the writer machine sees it
+RECURSIVE AsWritten(_, _, _)
+AsWritten(o, r, top) ==
+    [fields |-> [i \in DOMAIN o.fields |->
+                   IF o.fields[i].k = "prop"
+                   THEN [k |-> "prop", name |-> o.fields[i].name,
+                         state |-> IF o.fields[i].name \in r.set \cup r.zeros THEN "set"
+                                   ELSE IF o.fields[i].name \in r.nulls THEN "null" ELSE "unset"]
+                   ELSE [k |-> "member", emb |-> o.fields[i].emb, obj |-> AsWritten(o.fields[i].obj, r, FALSE)]],
+     addl |-> IF top /\ r.extras # {} THEN << CHOOSE x \in r.extras : TRUE >> ELSE << >>]
+Writes(r) == r.ok => /\ Ev.valid
+                     /\ Cardinality(r.extras) <= 1
+                     /\ Ev.toks = WriteObj(AsWritten(Ev.obj, r, TRUE), << >>, FALSE, TRUE).toks
+                     /\ WriterOK(AsWritten(Ev.obj, r, TRUE), TRUE)
 Read == /\ l <= Len(Trace) /\ Ev.ev = "Read"
         /\ Agrees(Machine)
+        /\ Writes(Machine)
         /\ ReadRefinesProp(Ev.obj, Ev.doc)                      \* (the design check, once more on the replayed case)
         /\ stats' = [stats EXCEPT !.accepted = @ + 1, !.nontrivial = @ + (IF DOMAIN Ev.doc # {} THEN 1 ELSE 0)]
         /\ l' = l + 1
 Step == Read
 Skip == /\ l <= Len(Trace) /\ ~ENABLED Step
         /\ PrintT(ToJson([verdict |-> "REJECT", case |-> Ev.case, at |-> l, event |-> [ev |-> Ev.ev], kf |-> "",
-                          why |-> [machineOK |-> Machine.ok, machineErr |-> Machine.err]]))
+                          why |-> [machineOK |-> Machine.ok, machineErr |-> Machine.err, reads |-> Agrees(Machine), writes |-> IF Agrees(Machine) THEN Writes(Machine) ELSE FALSE]]))
         /\ stats' = [stats EXCEPT !.rejected = @ + 1]
         /\ l' = l + 1
 Finish == /\ l = Len(Trace) + 1
